@@ -83,13 +83,119 @@ def isComment (l : Str) : Bool := (lstripWs l).head? == some '#'
 /-- `_get_comment_at_line` (237-252) -/
 def commentAt (l : Str) : Str := if !(l.contains '#') then [] else stripWs (after '#' l)
 
-/-- `_get_inline_comment_at_line` (255-271): `split("#", maxsplit=1)`; `len(parts) != 2` ⇒ "". -/
-def inlineComment (l : Str) : Str := if !(l.contains '#') then [] else stripWs (after '#' l)
+/-! ### inline comment: `_get_inline_comment_at_line` (259-285)
 
-/-! ### upward scan: `_get_comment_ending_at_line` (274-296) -/
+  The code takes the line's COMMENT token from `tokenize` (so a `#` inside a string literal of the
+  default value is not a comment) and falls back to "everything after the first `#`" when the
+  tokenizer raises.  The model does not contain a Python tokenizer: it scans the definition line
+  for the first `#` outside a string literal, on the fragment "names, numbers, brackets, operators
+  and one-line string literals in either quote kind without backslashes, prefixes or triple
+  quotes"; every other line is `unmodelled` (a distinct outcome, see `lineModelled`). -/
 
-/-- the two `break` conditions of the upward loop -/
-def isStop (l : Str) : Bool := containsFieldDef l || hasTriple l
+inductive Prev
+  | other | ident | number
+  | closedEmpty            -- an empty string literal was just closed (a further quote = triple quote)
+  deriving DecidableEq, Repr
+
+structure TokSt where
+  inStr : Option (Char × Bool)   -- inside a string literal: its quote, and "has content so far"
+  depth : List Char              -- closing brackets still expected, innermost first
+  prev : Prev
+  deriving DecidableEq, Repr
+
+def st0 : TokSt := ⟨none, [], .other⟩
+
+inductive Step
+  | next (s : TokSt)
+  | comment              -- a `#` outside a string literal
+  | unmodelled
+  deriving DecidableEq, Repr
+
+def closerOf (c : Char) : Option Char :=
+  if c = '(' then some ')' else if c = '[' then some ']' else if c = '{' then some '}' else none
+
+def isCloser (c : Char) : Bool := c = ')' || c = ']' || c = '}'
+
+def isOperator (c : Char) : Bool :=
+  c = ':' || c = '=' || c = ',' || c = '+' || c = '-' || c = '*' || c = '/' || c = '|' || c = '<' || c = '>'
+
+def step (s : TokSt) (c : Char) : Step :=
+  match s.inStr with
+  | some (q, content) =>
+    if c = q then .next { s with inStr := none, prev := if content then .other else .closedEmpty }
+    else if c = '\\' then .unmodelled
+    else .next { s with inStr := some (q, true) }
+  | none =>
+    if c = '#' then .comment
+    else if c = '"' || c = '\'' then
+      (if s.prev = .other then .next { s with inStr := some (c, false) } else .unmodelled)
+    else if c.isAlpha || c = '_' then
+      (if s.prev = .number then .unmodelled else .next { s with prev := .ident })
+    else if c.isDigit then .next { s with prev := if s.prev = .ident then .ident else .number }
+    else if c = '.' then .next { s with prev := if s.prev = .number then .number else .other }
+    else if isSpace c || isOperator c then .next { s with prev := .other }
+    else match closerOf c with
+      | some cl => .next { s with depth := cl :: s.depth, prev := .other }
+      | none =>
+        if isCloser c then
+          match s.depth with
+          | d :: ds => if d = c then .next { s with depth := ds, prev := .other } else .unmodelled
+          | [] => .unmodelled
+        else .unmodelled
+
+/-- what the tokenizer pass of the code yields for the line -/
+inductive InlineTok
+  | comment (body : Str)   -- a COMMENT token; `body` = `token.string[1:]`
+  | noComment              -- tokenized to the end without a comment: ""
+  | error                  -- TokenError / SyntaxError (unterminated string, open bracket at the
+                           --   end of the line) before any comment: the fallback split is used
+  | unmodelled
+  deriving DecidableEq, Repr
+
+def tokScan (s : TokSt) : Str → InlineTok
+  | [] => if s.inStr.isSome then .error else if s.depth.isEmpty then .noComment else .error
+  | c :: cs =>
+    match step s c with
+    | .next s' => tokScan s' cs
+    | .comment => .comment cs
+    | .unmodelled => .unmodelled
+
+/-- the state after a prefix that is passed without reaching a comment or leaving the fragment -/
+def runTok (s : TokSt) : Str → Option TokSt
+  | [] => some s
+  | c :: cs =>
+    match step s c with
+    | .next s' => runTok s' cs
+    | _ => none
+
+/-- the tokenizer pass on `line.strip()`; scanning `line.lstrip()` is equivalent (trailing blanks
+    either follow the last token, end a comment whose text is stripped afterwards, or sit in an
+    unterminated string, which is an error both ways). -/
+def inlineTok (l : Str) : InlineTok := tokScan st0 (lstripWs l)
+
+/-- is the definition line inside the modelled fragment of the inline-comment extraction? -/
+def lineModelled (l : Str) : Bool := !(l.contains '#') || inlineTok l != .unmodelled
+
+/-- `_get_inline_comment_at_line`.  For a line outside the modelled fragment (`lineModelled l =
+    false`) the value is not claimed by the model: the drivers answer `unmodelled` for such
+    sources and the theorems assume the layout grammar, on which every line is modelled. -/
+def inlineComment (l : Str) : Str :=
+  if !(l.contains '#') then []                         -- "#" not in line_str
+  else match inlineTok l with
+    | .comment body => stripWs body                    -- token.string[1:].strip()
+    | .noComment => []
+    | .error => stripWs (after '#' l)                  -- line_str.split("#", maxsplit=1)[1].strip()
+    | .unmodelled => stripWs (after '#' l)
+
+/-! ### upward scan: `_get_comment_ending_at_line` (278-302) -/
+
+/-- `line.lstrip().startswith(("class ", "@"))`: the class header or a decorator line -/
+def isHeaderLine (l : Str) : Bool :=
+  startsWith (lstripWs l) ['c', 'l', 'a', 's', 's', ' '] || startsWith (lstripWs l) ['@']
+
+/-- the three `break` conditions of the upward loop: a field definition, a line with a triple
+    quote, the class header / a decorator (a comment on those does not document a field) -/
+def isStop (l : Str) : Bool := containsFieldDef l || hasTriple l || isHeaderLine l
 
 /-- the `while start_line > 0` loop, on the lines above the field in nearest-first order
     (line 0 already removed: the loop never looks at index 0 and never includes it). -/
@@ -103,7 +209,7 @@ def commentAbove (revBefore : List Str) : Str :=
   let blk := (scanUp revBefore).reverse
   stripWs (joinNl ((blk.filter (fun l => !isEmptyLine l)).map commentAt))
 
-/-! ### downward scan: `_get_docstring_starting_at_line` (299-386) -/
+/-! ### downward scan: `_get_docstring_starting_at_line` (305-392) -/
 
 /-- the `else` branch (374-383): the token is known; returns the remaining `docstring_contents`. -/
 def docRest (tok : Str) : List Str → List Str
@@ -139,7 +245,7 @@ def docStart : List Str → List Str
 
 def docBelow (rest : List Str) : Str := joinNl (docStart rest)
 
-/-! ### one class: `_get_attribute_docstring` (107-165) -/
+/-! ### one class: `_get_attribute_docstring` (107-169) -/
 
 structure Doc where
   above : Str
@@ -196,10 +302,18 @@ structure ClassSrc where
   doc : Option Str                  -- cls.__doc__
   params : List (Str × Str)         -- docstring_parser params of inspect.getdoc(cls)
 
+/-- a class that does not (re-)declare the field but documents it in its class docstring (a
+    subclass describing an inherited field) contributes that entry (docstring.py:165-168). -/
 def scanClass (c : ClassSrc) (name : Str) : Option Doc :=
   match scanLines (splitLines (removeDoc c.doc c.source)) name with
-  | none => none
   | some d => some { d with cls := clsDesc c.params name }
+  | none =>
+    if (clsDesc c.params name).isEmpty then none
+    else some ⟨[], [], [], clsDesc c.params name⟩
+
+/-- every field-definition line of the class is inside the modelled fragment -/
+def classModelled (c : ClassSrc) : Bool :=
+  (splitLines (removeDoc c.doc c.source)).all (fun l => !containsFieldDef l || lineModelled l)
 
 /-! ### MRO accumulation: `get_attribute_docstring` (46-104) -/
 
@@ -244,7 +358,8 @@ def actionHelp (customHelp metaHelp : Option Str) (d : Doc) : Option Str :=
 
 /-! ### the layout grammar (DESIGN.md §5 C19): what "one field per line" sources look like
 
-  header lines (decorators, `class` line, what is left of the class docstring after its removal),
+  header lines (decorators and `class` line, each with an optional trailing comment, what is left
+  of the class docstring after its removal),
   then per field a block:
   [comment lines] [blank lines] definition line [inline comment] [blank lines]
   [docstring below, `"""` or `'''`, on one line or spanning several] [blank lines].
@@ -323,12 +438,19 @@ def Block.doc (b : Block) : Doc :=
 def quoteFree (m : Str) : Bool := !m.contains '"' && !m.contains '\''
 def docText (m : Str) : Bool := quoteFree m && !m.contains ':'
 
-/-- well-formed blocks: the name is an identifier; the annotation/default part has no `:` or `#`
-    (so `lambda:` defaults, dict literals and `"#…"` strings are outside the grammar); comment texts
+/-- the annotation / default part tokenizes inside the modelled fragment and ends outside any
+    string literal with all brackets closed; string literals in it may contain `#` -/
+def tailOk (tail : Str) : Bool :=
+  match runTok ⟨none, [], .ident⟩ (':' :: tail) with
+  | some s => s.inStr.isNone && s.depth.isEmpty
+  | none => false
+
+/-- well-formed blocks: the name is an identifier; the annotation/default part has no `:` (so
+    `lambda:` defaults and dict literals are outside the grammar) and is `tailOk`; comment texts
     contain no quote characters; docstring texts contain no quote characters and no `:`; the
     inline comment contains no `:`. -/
 def Block.wf (b : Block) : Bool :=
-  isIdentifier b.name && !b.tail.contains ':' && !b.tail.contains '#'
+  isIdentifier b.name && !b.tail.contains ':' && tailOk b.tail
   && (match b.inline with
       | some m => !m.contains ':'
       | none => true)
@@ -338,8 +460,9 @@ def Block.wf (b : Block) : Bool :=
       | .one _ m => docText m
       | .multi _ f r => docText f && r.all docText)
 
-/-- header lines: at least one (source line 0), none looks like a field definition, none has a `#` -/
+/-- header lines: at least one (source line 0), none looks like a field definition, and a `#` occurs
+    only on the `class` line or on decorator lines (a trailing comment there is allowed) -/
 def headerOk (hdr : List Str) : Bool :=
-  !hdr.isEmpty && hdr.all (fun l => !containsFieldDef l && !l.contains '#')
+  !hdr.isEmpty && hdr.all (fun l => !containsFieldDef l && (isHeaderLine l || !l.contains '#'))
 
 end SpVerif.DocScan
